@@ -51,8 +51,7 @@ Proof.
 Qed.
 
 Section Crop.
-Variable truthy : Z -> bool.
-Notation P := (wf_seg_b truthy).
+Notation P := wf_seg_b.
 
 Lemma P_text t st : plain_b t = true -> P (mkSeg t st false) = true.
 Proof. intros H. exact H. Qed.
@@ -64,7 +63,7 @@ Proof.
   destruct ((cur + seg_len g <? n) || ctl g) eqn:E.
   - cbn [forallb]. rewrite Hg. apply IH. exact Hl.
   - apply orb_false_iff in E. destruct E as [_ Ec]. cbn [forallb]. rewrite andb_true_r.
-    apply P_text. apply plain_set_cell_size. unfold SpecRecord.wf_seg_b in Hg. rewrite Ec in Hg. exact Hg.
+    apply P_text. apply plain_set_cell_size. unfold wf_seg_b in Hg. rewrite Ec in Hg. exact Hg.
 Qed.
 
 Lemma adjust_P (line : list sg) n style pad :
@@ -105,7 +104,7 @@ Proof.
   - cbn [forallb] in Hs. apply andb_true_iff in Hs. destruct Hs as [Hg Hs].
     destruct (has_nl (txt g) && negb (ctl g)) eqn:E.
     + apply andb_true_iff in E. destruct E as [_ Ec]. apply negb_true_iff in Ec.
-      assert (Hp : plain_b (txt g) = true) by (unfold SpecRecord.wf_seg_b in Hg; rewrite Ec in Hg; exact Hg).
+      assert (Hp : plain_b (txt g) = true) by (unfold wf_seg_b in Hg; rewrite Ec in Hg; exact Hg).
       pose proof (sac_text_P (Datatypes.S (length (txt g))) shadow (txt g) (sty g) n
                     (if shadow then sty g else ps) pad incl line done Hp Hl Hd) as Q.
       destruct (Segments.sac_text Z (Datatypes.S (length (txt g))) shadow (txt g) (sty g) n
@@ -127,20 +126,20 @@ Definition wf_input_b (o : op) : bool :=
   | _ => true
   end.
 
-Lemma wf_input_op c o : wf_input_b o = true -> wf_op_b truthy c o = true.
+Lemma wf_input_op c o : wf_input_b o = true -> wf_op_b c o = true.
 Proof.
-  unfold SpecRecord.wf_op_b. destruct o; cbn [wf_input_b op_out]; intros H; try reflexivity.
+  unfold wf_op_b. destruct o; cbn [wf_input_b op_out]; intros H; try reflexivity.
   - destruct crop; [apply crop_P; exact H|exact H].
   - destruct n; [reflexivity|]. cbn [forallb]. rewrite andb_true_r. apply P_text.
     clear. induction n as [|n IH]; [reflexivity|]. exact IH.
-  - cbn [forallb]. rewrite andb_true_r. unfold SpecRecord.wf_seg_b. cbn [ctl sty txt truthy_o negb andb]. exact H.
+  - cbn [forallb]. rewrite andb_true_r. unfold wf_seg_b. cbn [ctl txt]. exact H.
   - destruct home; reflexivity.
   - destruct (term c && negb (legacy c)); [|reflexivity]. destruct show; reflexivity.
 Qed.
 
-Lemma wf_input_hist c h : forallb wf_input_b h = true -> wf_hist_b truthy c h = true.
+Lemma wf_input_hist c h : forallb wf_input_b h = true -> wf_hist_b c h = true.
 Proof.
-  unfold SpecRecord.wf_hist_b. induction h as [|o h IH]; [reflexivity|]. cbn [forallb]. intros H.
+  unfold wf_hist_b. induction h as [|o h IH]; [reflexivity|]. cbn [forallb]. intros H.
   apply andb_true_iff in H. destruct H as [H1 H2]. rewrite (wf_input_op c o H1), (IH H2). reflexivity.
 Qed.
 End Crop.
